@@ -38,7 +38,7 @@ def hunk_text_inst(ops, o, n, a, b):
     call = "t_hunk_text::<%d, %d>([%s], %d, %d, %s, %s)" % (size, k, arr, o, n, str(a).lower(), str(b).lower())
     return Instance(name, "parser", call, unwind=max(size, 30) + 2, unwindset={"memcmp.0": 6}, stubs=[FROM_UTF8_STUB], mem_gb=9, timeout_s=1800,
                     unwind_fns={"libpatch::patch::unified::parser::parse_hunk.0": k + 2, "memchr::memchr.0": 31},
-                    sub="C01 lemma 1: hunk text -> Hunk", must_cover=["hunk text parsed"],
+                    sub="C01 lemma 1: hunk text -> Hunk", must_cover=["hunk text parsed"], sweep=("parser", "replay_sweep_hunk_text"),
                     params=dict(edit_script=ops, old_start=o, new_start=n, no_newline_old_last=a, no_newline_new_last=b))
 
 
